@@ -2178,8 +2178,11 @@ def eqn2_helpers(e, bitslice=False, widening=False):
             if e.op.symbol == OP_NEQ and e.l._is_ext:
                 return bit1
         # if e:= (l [|*/] 1) then e:= l
-        elif e.r.value == 1 and e.op.symbol in (OP_MUL, OP_MUL2, OP_DIV):
+        elif e.r.value == 1 and e.op.symbol in (OP_MUL, OP_DIV):
             return e.l
+        # if e:= (l ** 1) then e:= l extended to the double width
+        elif e.r.value == 1 and e.op.symbol == OP_MUL2:
+            return e.l.extend(e.l.sf, e.size)
         # if e:= (l & mask) then e:= l[i1:i2]
         elif e.op.symbol == OP_AND and ismask(e.r.value):
             i1, i2 = get_lsb_msb(e.r.value)
